@@ -19,11 +19,17 @@ contract(
     "ext:Document.note_explicit_target",
     types={"__params__": ["self", "target", "msgnode"], "self": "Document", "target": "Element", "msgnode": "Element"},
     requires=[],
-    # registers the target's names (a clash makes docutils report and rename - either way earlier names stay registered)
-    ensures=["forall(0, len(target.names), lambda i: target.names[i] in self.nameids)",
-             "implies(len(target.names) == 1, target.names[0] in self.nameids)",
-             "self.nameids[: len(old(self.nameids))] == old(self.nameids)"],
-    returns="None", modifies=["self.nameids", "Document.log"], trusted=True,
+    # registers the target's names; on a clash docutils reports it: a system_message is appended to `msgnode` (found by
+    # run-time monitoring: the first version of this contract left msgnode alone and render_myst_target's "exactly one new
+    # child" fired on a document with a duplicate target name) - either way earlier names stay registered
+    # (the names the target HAD: on a clash docutils moves the name from the node's `names` to its `dupnames`, and may do the same
+    #  to the node that held the name before - but the name stays a key of document.nameids)
+    ensures=["forall(0, len(old(target.names)), lambda i: old(target.names)[i] in self.nameids)",
+             "implies(len(old(target.names)) >= 1, old(target.names)[len(old(target.names)) - 1] in self.nameids)",
+             "self.nameids[: len(old(self.nameids))] == old(self.nameids)",
+             "msgnode.children[: len(old(msgnode.children))] == old(msgnode.children)",
+             "forall_obj('Element', lambda e: implies(old(allocated(e)), e.parent == old(e.parent) and e.kind == old(e.kind) and e.line == old(e.line)))"],
+    returns="None", modifies=["self.nameids", "Document.log", "msgnode.children", "Element.parent", "Element.kind", "Element.line", "Element.names", "fresh"], trusted=True,
 )
 assumed("docutils explicit names", "node['names'] is the node's name list; document.note_explicit_target(node, ...) registers those names "
         "(a clash makes docutils report and rename - either way earlier names stay registered)", "docutils.nodes")
